@@ -14,7 +14,7 @@
 (*      specification: no argument spelling may make the single *at call   *)
 (*      act on, or return, anything outside the root.                      *)
 (***************************************************************************)
-EXTENDS VFS, Json, SequencesExt
+EXTENDS VFS, Json, SequencesExt, Partial
 
 CONSTANTS Trees, Ops, MaxIno, KMaxLinks, EmitCases,
           RefuseOPathCreate,  \* TRUE: create_file rejects O_PATH (the code since the fix); FALSE: the pinned snapshot
@@ -192,6 +192,16 @@ DoMkdirAll(f, raw) ==
          IF \E i \in DOMAIN parts : parts[i] = ".." THEN Out(Err("ENOENT"), f)
          ELSE MkChain(f, p.ino, parts, 0)
 
+\* what mkdir_all makes of a partial lookup (root.rs:985-1068), for either backend
+MkdirAllWith(f, p) ==
+    IF ~p.ok THEN Out(Err(p.err), f)
+    ELSE IF p.lasterr \notin {"", "ENOENT"} THEN Out(Err(p.lasterr), f)
+    ELSE IF ~IsDir(f, p.ino) THEN Out(Err("ENOTDIR"), f)
+    ELSE LET parts == SelectSeq(p.rem, LAMBDA c : c \notin {"", "."}) IN
+         IF \E i \in DOMAIN parts : parts[i] = ".." THEN Out(Err("ENOENT"), f)
+         ELSE MkChain(f, p.ino, parts, 0)
+DoMkdirAllE(f, raw) == MkdirAllWith(f, PartialE(f, raw))
+
 Do(f, o, raw, raw2) ==
     CASE o.op = "create"      -> DoCreate(f, o, raw, raw2)
       [] o.op = "create_file" -> DoCreateFile(f, o, raw)
@@ -228,6 +238,18 @@ ResultInside == (done /\ op.op \in {"create_file", "mkdir_all"} /\ res.ok) => re
 \* C12 (sequential): success returns the in-root resolution of the path, which is a directory
 MkdirAllPost == (done /\ op.op = "mkdir_all" /\ res.ok) =>
                    LET k == KResolve(fs, R, path, FollowFlags, KMaxLinks) IN k.ok /\ k.ino = res.ino /\ IsDir(fs, k.ino)
+\* C04 for mkdir_all at the level of the design: the emulated partial lookup (SymlinkStack) and the openat2-style
+\* one (full path, then each ancestor) make mkdir_all do the same thing -- same outcome class, same final tree, same
+\* returned directory -- and the symlink stack never breaks
+PartialBackendsAgree ==
+    (done /\ op.op = "mkdir_all") =>
+        LET e == DoMkdirAllE(fs0, path)  k == DoMkdirAll(fs0, path) IN
+        /\ e.res.ok = k.res.ok
+        /\ (e.res.ok => e.res.ino = k.res.ino)
+        /\ (~e.res.ok => e.res.err = k.res.err)
+        /\ e.fs.dents = k.fs.dents
+SymlinkStackNeverBreaks ==
+    (done /\ op.op = "mkdir_all") => LET p == PartialE(fs0, path) IN p.ok \/ p.err # "INTERNAL"
 \* C13 (sequential): only the named subtree disappears, nothing is added
 RemoveAllPost == (done /\ op.op = "remove_all") => (fs.dents \subseteq fs0.dents)
 \* the symlink target string is stored verbatim (never resolved), so nothing is implied for it
